@@ -3600,7 +3600,21 @@ class Fused(Blockwise):
             else:
                 graph[(_expr._name, index)] = _expr._task(index)
 
-        for i, dep in enumerate(self.dependencies()):
+        # The group members refer to their external dependencies by the names
+        # those had when the group was formed. A later rewrite may have replaced
+        # the dependency operands (same order), so alias the original names too.
+        local_names = {_expr._name for _expr in self.exprs}
+        original_deps = [
+            operand
+            for _expr in self.exprs
+            for operand in _expr.dependencies()
+            if operand._name not in local_names
+        ]
+        dependencies = self.dependencies()
+        if len(original_deps) == len(dependencies):
+            for i, dep in enumerate(original_deps):
+                graph[self._blockwise_arg(dep, index)] = "_" + str(i)
+        for i, dep in enumerate(dependencies):
             graph[self._blockwise_arg(dep, index)] = "_" + str(i)
 
         return (
